@@ -77,6 +77,7 @@ var bookExternal = map[string]string{
 type bookFnKey struct{ recv, name string }
 
 type bookFnInfo struct {
+	inline    string // non-empty: the function is inlined at call sites
 	leanName  string
 	recvTy    string
 	params    []gfield
@@ -580,7 +581,7 @@ func (c *bctx) call(x *ast.CallExpr) (string, *gty) {
 					args = append(args, "("+s+")")
 				}
 			}
-			return "(" + info.leanName + " " + strings.Join(args, " ") + ")", info.ret
+			return "(" + info.callee() + " " + strings.Join(args, " ") + ")", info.ret
 		}
 	case *ast.SelectorExpr:
 		// method call without mutation
@@ -601,7 +602,7 @@ func (c *bctx) call(x *ast.CallExpr) (string, *gty) {
 			s, _ := c.expr(a)
 			args = append(args, "("+s+")")
 		}
-		return "(" + info.leanName + " " + strings.Join(args, " ") + ")", info.ret
+		return "(" + info.callee() + " " + strings.Join(args, " ") + ")", info.ret
 	}
 	return c.bad(x, "call")
 }
@@ -823,7 +824,7 @@ func (c *bctx) callStmt(x *ast.CallExpr, out *strings.Builder, ind string, k bco
 		s, _ := c.expr(a)
 		args = append(args, "("+s+")")
 	}
-	app := "(" + info.leanName + " " + strings.Join(args, " ") + ")"
+	app := "(" + info.callee() + " " + strings.Join(args, " ") + ")"
 	if info.mayPanic {
 		c.bad(x, "call of a method that may panic (only allowed as `return r.m()`)")
 		return true, ""
@@ -902,7 +903,7 @@ func (c *bctx) block(stmts []ast.Stmt, k bcont, out *strings.Builder, ind string
 									as, _ := c.expr(a)
 									args = append(args, "("+as+")")
 								}
-								app := "(" + info.leanName + " " + strings.Join(args, " ") + ")"
+								app := "(" + info.callee() + " " + strings.Join(args, " ") + ")"
 								c.mutated[c.recv] = c.mutated[c.recv] || info.mutRecv
 								fmt.Fprintf(out, "%s%s\n", ind, "TAILCALL["+fmt.Sprint(info.mayPanic)+"]"+app)
 								if info.mayPanic {
@@ -967,7 +968,17 @@ func (c *bctx) assign(s *ast.AssignStmt, out *strings.Builder, ind string) {
 					vn, on := s.Lhs[0].(*ast.Ident).Name, s.Lhs[1].(*ast.Ident).Name
 					el := mt.deref().elem
 					if el.isRef() {
-						c.bad(s, "comma-ok definition of a reference value (use the if-header form)")
+						// the value is an alias of the map entry (write-back through it); `ok` is a plain flag
+						frozen := c.fresh("key")
+						fmt.Fprintf(out, "%slet %s := %s\n", ind, frozen, ks)
+						c.vars[frozen] = &bvar{ty: tyInt}
+						if vn != "_" {
+							c.vars[vn] = &bvar{ty: el, alias: &ast.IndexExpr{X: c.resolve(ix.X), Index: ast.NewIdent(frozen)}}
+						}
+						if on != "_" {
+							fmt.Fprintf(out, "%slet %s := (AL.find? (%s) (%s)).isSome\n", ind, on, ms, frozen)
+							c.vars[on] = &bvar{ty: tyBool}
+						}
 						return
 					}
 					if vn != "_" {
@@ -1359,6 +1370,25 @@ func (c *bctx) forStmt(s *ast.ForStmt, out *strings.Builder, ind string) {
 // functions
 // ---------------------------------------------------------------------------------------------
 
+func (b *book) isTarget(key bookFnKey) bool {
+	for _, g := range bookGroups {
+		for _, k := range g.fns {
+			if k == key {
+				return true
+			}
+		}
+	}
+	return false
+}
+
+// callee renders the function position of an application
+func (info *bookFnInfo) callee() string {
+	if info.inline != "" {
+		return info.inline
+	}
+	return info.leanName
+}
+
 func (b *book) findDecl(key bookFnKey) (*ast.FuncDecl, string) {
 	for name, f := range b.p.files {
 		for _, d := range f.Decls {
@@ -1515,6 +1545,12 @@ func (b *book) translate(key bookFnKey) *bookFnInfo {
 	}
 	info.text = fmt.Sprintf("/-- `%s` (%s) -/\n%sdef %s %s : %s :=\n%s\n", strings.TrimSpace(strings.ReplaceAll(key.recv+"."+key.name, "..", ".")), file, under,
 		info.leanName, strings.Join(paramDecls, " "), resTy, text)
+	// a function that is not one of the configured translation targets (a helper the source introduced)
+	// is inlined at its call sites as a β-redex, so that the generated definitions of the targets do
+	// not depend on how the source factors its code
+	if !b.isTarget(key) {
+		info.inline = "(fun " + strings.Join(paramDecls, " ") + " =>\n" + strings.TrimRight(text, "\n") + ")"
+	}
 	info.ok = len(problems) == nprob
 	b.counter++
 	info.order = b.counter
@@ -1615,7 +1651,7 @@ func genBook(p *pkgFiles, files map[string]string) {
 		}
 		sort.Slice(keys, func(i, j int) bool { return b.fns[keys[i]].order < b.fns[keys[j]].order })
 		for _, k := range keys {
-			if _, done := owner[k]; done || !b.fns[k].ok {
+			if _, done := owner[k]; done || !b.fns[k].ok || b.fns[k].inline != "" {
 				continue
 			}
 			owner[k] = g.file
